@@ -157,12 +157,12 @@ def gen_cases(rng, tier):
     SEQ_USES = ['//seq.join(",", %s)', "//seq.join([0], %s)", "//seq.join(<<0>>, %s)", "//seq.concat(%s)", '//seq.join("", %s)', "//seq.concat([%s, %s])",
                 '//seq.contains("a", %s)', "//seq.repeat(2, %s)", '//seq.split(",", %s)', "//str.join(%s, ',')" if False else '//seq.has_prefix("a", %s)',
                 "%s >> . ++ .", "//rel.union(%s)", "%s orderby .", "//fmt.pretty(%s)", "//encoding.json.encode(%s)", "$`${%s::,}`"]
-    import itertools as _it
+    _r = random.Random("sparse-seq")      # its own PRNG: the streams that follow keep their random choices
     for shape in SPARSE_SHAPES:
         n = shape.count("%s")
         for combo in ([(a,) * n for a in FALSY_TRUTHY] + [tuple(FALSY_TRUTHY[(i + 3 * j) % len(FALSY_TRUTHY)] for j in range(n)) for i in range(len(FALSY_TRUTHY))]):
             val = shape % combo
-            for use in (SEQ_USES if tier != "quick" else SEQ_USES[:6] + rng.sample(SEQ_USES[6:], 2)):
+            for use in (SEQ_USES if tier != "quick" else SEQ_USES[:6] + _r.sample(SEQ_USES[6:], 2)):
                 add("sparse-seq", use.replace("%s", val))
     # stream 2: malformed source text
     n2 = 100 if tier == "quick" else 700
